@@ -193,6 +193,7 @@ CHECKS = {
              "GetPath/Flatten/EvalV (L1)",
         assumptions=["token renderer and abs() projection of the harness"],
         stages=[
+            mc("index-paths", "MC_C02.tla", "MC_C02.cfg"),
             lang("containers", "c02", 4000, 120000, ["--nctx", "6", "--depth", "3", "--nestpct", "45"], shards=SH),
             lang("rich", "rich", 2000, 60000, ["--nctx", "5", "--depth", "3"], shards=SH, seed_off=1),
         ],
@@ -214,6 +215,10 @@ CHECKS = {
              "executed on every context without panic",
         assumptions=["mutations stay inside the modelled token fragment (see DESIGN section 8)"],
         stages=[
+            mc("matrix-cmp", "MC_C04.tla", "MC_C04_cmp.cfg"),
+            mc("matrix-index", "MC_C04.tla", "MC_C04_index.cfg"),
+            mc("matrix-logic", "MC_C04.tla", "MC_C04_logic.cfg"),
+            mc("matrix-chains", "MC_C04.tla", "MC_C04_logic3.cfg"),
             lang("mutants", "rich", 5000, 200000, ["--nctx", "4", "--depth", "3", "--mutate", "60"], shards=SH),
             lang("scalar-mutants", "c01", 2000, 60000, ["--nctx", "4", "--depth", "4", "--mutate", "60"], shards=SH, seed_off=2),
         ],
@@ -283,6 +288,7 @@ CHECKS = {
              "around context values and type extremes; results validated against WfEval!InItem (declarative membership)",
         assumptions=[],
         stages=[
+            mc("range-lists", "MC_C09.tla", dict(quick="MC_C09_quick.cfg", thorough="MC_C09_thorough.cfg")),
             lang("sets", "rich", 3000, 100000, ["--nctx", "8", "--depth", "1", "--setpct", "85", "--setmax", "40", "--listpct", "0", "--callpct", "5", "--nestpct", "5"], shards=SH),
         ],
     ),
@@ -337,6 +343,7 @@ CHECKS = {
              "d in {16,64,128,129,200}, with the deep path in chain operands and call arguments; verdict must equal the L2 counter model",
         assumptions=[],
         stages=[
+            mc("shapes", "MC_C13.tla", dict(quick="MC_C13_quick.cfg", thorough="MC_C13_thorough.cfg")),
             lang("nesting", "c13", 4000, 100000, ["--nctx", "2"], shards=SH),
         ],
     ),
